@@ -58,3 +58,15 @@ pub uninterp spec fn usize_as_f32(n: usize) -> f32;
 pub trait VxAsF32: Sized { spec fn as_f32_spec(self) -> f32; fn vx_to_f32(self) -> (r: f32) ensures r == self.as_f32_spec(); }
 impl VxAsF32 for usize { open spec fn as_f32_spec(self) -> f32 { usize_as_f32(self) } #[verifier::external_body] fn vx_to_f32(self) -> (r: f32) { self as f32 } }
 pub fn vx_as_f32<T: VxAsF32>(x: T) -> (r: f32) ensures r == x.as_f32_spec() { x.vx_to_f32() }
+// transcendental / misc std float methods: arbitrary but fixed functions
+pub uninterp spec fn f64_ln_1p_spec(x: f64) -> f64;
+pub uninterp spec fn f64_ln_spec(x: f64) -> f64;
+pub uninterp spec fn f64_abs_spec(x: f64) -> f64;
+pub uninterp spec fn f64_floor_spec(x: f64) -> f64;
+pub assume_specification[ f64::ln_1p ](x: f64) -> (r: f64) ensures r == f64_ln_1p_spec(x);
+pub assume_specification[ f64::ln ](x: f64) -> (r: f64) ensures r == f64_ln_spec(x);
+pub assume_specification[ f64::abs ](x: f64) -> (r: f64) ensures r == f64_abs_spec(x);
+pub assume_specification[ f64::floor ](x: f64) -> (r: f64) ensures r == f64_floor_spec(x);
+pub uninterp spec fn f64_epsilon_spec() -> f64;
+#[verifier::external_body]
+pub fn vx_f64_epsilon() -> (r: f64) ensures r == f64_epsilon_spec() { f64::EPSILON }
